@@ -48,6 +48,30 @@ def run(ctx):
         ok = bool(vr) and all(r == ('param', td.id, 1) and 'key' in P.fpath(p) for r, p in vr)
     R.ob('C13.own', ('Drop for Tracker', 'reports its own key'), ok, 'when the last channel of a key closes, that key is reported to the listener', [td.loc(td.d)])
 
+    # (0) channels are counted per key value: the table is indexed by the key itself (compared with Eq), not by something derived from it
+    ktys = ty_head(map_f[0][1])[1]
+    tracker_arg = ty_head(ty_head(val_ty)[1][0])[1][:1] if ty_head(val_ty)[1] else []
+    rx = [ty_head(x[1])[1][0] for x in fields if ty_head(x[1])[0].endswith('mpsc::UnboundedReceiver') and ty_head(x[1])[1]]
+    R.ob('C13.key', ('MaxChannelsPerKey', 'table indexed by the key type'), bool(ktys) and bool(tracker_arg) and len(rx) == 1 and ktys[0] == tracker_arg[0] == rx[0],
+         'the per-key table is indexed by the key type itself — the type the trackers carry and the close notifications report — so two different keys never share a count', [],
+         'map key type %s, tracker key type %s, notification type %s' % (ktys[:1], tracker_arg, rx))
+    lookups = [(g, bb, t) for g in reach for bb, t in g.calls() if callee_is(t, 'HashMap::entry', 'HashMap::get', 'HashMap::get_mut', 'HashMap::remove', 'HashMap::remove_entry', 'HashMap::contains_key', 'HashMap::insert')]
+    for g, bb, t in lookups:
+        kr = P.root(P.operand(g, t['args'][1], at=bb), through_params=True)
+        ok = bool(kr)
+        for r, p_ in kr:
+            vp = norm_path(p_)
+            if P.is_call(r, 'Fn::call', 'FnMut::call_mut', 'FnOnce::call_once') and not vp:
+                continue    # the key function's result, unchanged
+            if P.is_call(r, 'mpsc::UnboundedReceiver::poll_recv') and vp == (('v', 'Ready'), ('f', 0), ('v', 'Some'), ('f', 0)):
+                continue    # the key reported by a dropped tracker
+            ok = False
+        R.ob('C13.key', (F.enclosing_item(g).npath.split('::')[-1], strip_generics(t['callee']).split('::')[-1], 'looked up by the key itself'), ok,
+             'the table is consulted with the key the key function produced for the channel (or the key a dropped tracker reported), unchanged', [g.loc(t)],
+             str([P.describe(r) + str(list(norm_path(p_))) for r, p_ in kr]))
+    if len(lookups) < 2:
+        raise CannotDecide('per-key table lookups: %d (floor 2)' % len(lookups))
+
     # (1) admission
     trackers = [(g, i, j, s) for g in reach for i, j, s in g.aggregates('channels_per_key::Tracker')]
     R.ob('C13.admit', ('MaxChannelsPerKey', 'tracker creation sites'), 1 <= len(trackers) <= 3, 'trackers are created only by the admission logic', [g.loc(s) for g, _, _, s in trackers])
